@@ -586,6 +586,54 @@ func c14Keys(rng *RNG, o *Out, n int) {
 		o.Line("C14 K %d %s %s", w, strings.Join(toks, " "), hx(key))
 	}
 	o.Count("partition_key_tuples")
+	// float64 partition values outside the model's exact-decimal range: implementation-level
+	// collision search - two different float64 values must never share a partition key, equal values must
+	c14FloatKeyPairs(rng, o, n)
+}
+
+// c14FloatKeyPairs writes lines "C14 J <bits x> <bits y> <keys equal 0/1>".
+func c14FloatKeyPairs(rng *RNG, o *Out, n int) {
+	emit := func(x, y float64) {
+		kx := stream.VerifPartitionKey([]string{"p"}, map[string]any{"p": x})
+		ky := stream.VerifPartitionKey([]string{"p"}, map[string]any{"p": y})
+		eq := 0
+		if kx == ky {
+			eq = 1
+		}
+		o.Line("C14 J %d %d %d", math.Float64bits(x), math.Float64bits(y), eq)
+	}
+	bases := []float64{16777216, 16777217, 100000001, 4294967297, 1099511627777, 9007199254740991, 0.1, 0.3, 1.5, 123456.789, 1e-7, 1e21, 1e300, 3.141592653589793}
+	for _, b := range bases {
+		emit(b, b)
+		emit(b, math.Nextafter(b, math.Inf(1)))
+		emit(b, math.Nextafter(b, math.Inf(-1)))
+		emit(b, b*(1+1e-9))
+		emit(-b, -b*(1+1e-12))
+		if b >= 1 && b < 9e15 {
+			emit(b, b+1)
+			emit(b, b+2)
+		}
+	}
+	for i := 0; i < n/4+50; i++ {
+		x := math.Float64frombits(rng.Next())
+		if math.IsNaN(x) || math.IsInf(x, 0) || x == 0 {
+			continue
+		}
+		y := x
+		switch rng.Intn(4) {
+		case 0:
+			y = math.Nextafter(x, math.Inf(1))
+		case 1:
+			y = math.Float64frombits(math.Float64bits(x) ^ (1 << uint(rng.Intn(30))))
+		case 2:
+			y = x * (1 + 1e-8)
+		}
+		if math.IsNaN(y) || math.IsInf(y, 0) || y == 0 {
+			continue
+		}
+		emit(x, y)
+	}
+	o.Count("float_key_pairs")
 }
 
 func runC14(tier string, seed uint64, o *Out) error {
